@@ -863,8 +863,8 @@ theorem uncached_newSt (st : St) (name : String) (g0 : Dict Val) (e : Ev) (hc : 
     · simp [e] at hx
     · simpa [e] using hx
 
-theorem resolve_mem (dirs : List (Dict Src)) (i : Nat) (name : String) (r : String × Src)
-    (h : resolve dirs i name = some r) : name ∈ dirs.flatMap (·.keys) := by
+theorem resolve_mem (lab : Nat → String) (dirs : List (Dict Src)) (i : Nat) (name : String) (r : String × Src)
+    (h : resolve lab dirs i name = some r) : name ∈ dirs.flatMap (·.keys) := by
   induction dirs generalizing i with
   | nil => simp [resolve] at h
   | cons d ds ih =>
@@ -928,7 +928,7 @@ theorem importModule_nofuel : ∀ fuel name st, (uncached env st).length < fuel 
         · next file body hres =>
           apply key
           simp only [candidates, List.mem_eraseDups, List.mem_append]
-          right; exact resolve_mem _ _ _ _ hres
+          right; exact resolve_mem _ _ _ _ _ hres
 
 end importer
 
